@@ -127,6 +127,26 @@ func c28Dialogue(port int) (step, problem string) {
 	return "", ""
 }
 
+// c28GetPort asks the portmapper on 127.0.0.1:111 (portmap v2 over record-marked TCP).
+func c28GetPort(prog, vers uint32) (int, string) {
+	conn, err := net.DialTimeout("tcp", "127.0.0.1:111", 10*time.Second)
+	if err != nil {
+		return 0, "portmapper-not-reachable"
+	}
+	defer conn.Close()
+	var a wire.Enc
+	a.U32(prog).U32(vers).U32(6).U32(0)
+	rb, prob := rpcExchange(conn, wire.Call(0x2811, 100000, 2, 3, vCredSys(0, 0, nil), a.B))
+	if prob != "" {
+		return 0, "no-well-formed-reply"
+	}
+	rp, err := wire.ParseReply(rb)
+	if err != nil || rp.Xid != 0x2811 || rp.Denied || rp.AcceptStat != 0 || len(rp.Result) != 4 {
+		return 0, "no-well-formed-reply"
+	}
+	return int(uint32(rp.Result[0])<<24 | uint32(rp.Result[1])<<16 | uint32(rp.Result[2])<<8 | uint32(rp.Result[3])), ""
+}
+
 func c28One(c *vCtx, cs c28Case) {
 	c.beat(func() any { return cs })
 	c.res.Evaluations++
@@ -178,6 +198,22 @@ func c28One(c *vCtx, cs c28Case) {
 		defer srv.Stop()
 		listenPort = srv.GetPort()
 	}
+	if cs.Path == "portmapper" {
+		// a standard client finds the services through the portmapper on port 111 and then
+		// talks to the ports it advertises
+		for _, pv := range [][2]uint32{{wire.ProgNFS, 3}, {wire.ProgMount, 3}, {wire.ProgMount, 1}} {
+			adv, prob := c28GetPort(pv[0], pv[1])
+			if prob != "" {
+				bad(fmt.Sprintf("standard-client-not-served|path=portmapper|step=GETPORT|how=%s", prob), fmt.Sprintf("PMAPPROC_GETPORT(prog=%d, vers=%d, tcp) on port 111: %s", pv[0], pv[1], prob))
+				return
+			}
+			if adv != listenPort {
+				bad("standard-client-not-served|path=portmapper|step=GETPORT|how=advertised-port-is-not-the-listening-port",
+					fmt.Sprintf("the portmapper advertises program %d version %d on tcp port %d, the server listens on %d (ServerOptions.Port=%d)", pv[0], pv[1], adv, listenPort, port))
+				return
+			}
+		}
+	}
 	step, prob := c28Dialogue(listenPort)
 	if prob != "" {
 		kind := "other"
@@ -199,7 +235,7 @@ func init() {
 	vRegister(&vCheck{
 		id: "C28", level: "exploration", flavour: "plain",
 		shards: func(string) int { return 1 },
-		rule: "complete enumeration of the public start-up paths: AbsfsNFS.Export (port 0 / explicit free port; first export and re-export after Unexport), NewServer+Listen with UseRecordMarking (port 0 / explicit; Debug off/on), StartWithPortmapper (Debug off/on); each started for real on loopback TCP and driven by a conformant ONC RPC client (record marking, AUTH_SYS): NULL, MNT /, GETATTR of the mounted handle, and a GETATTR split into three fragments. Verdicts are structural: well-formed reply / connection closed or reset / bytes that are not a record / nothing for 40 s (longer than the server's own read deadlines).",
+		rule: "complete enumeration of the public start-up paths: AbsfsNFS.Export (port 0 / explicit free port; first export and re-export after Unexport), NewServer+Listen with UseRecordMarking (port 0 / explicit; Debug off/on), StartWithPortmapper (port 0 / explicit; Debug off/on; the client first asks the portmapper on port 111 for NFS v3, MOUNT v3 and MOUNT v1 over TCP and the advertised port must be the listening port); each started for real on loopback TCP and driven by a conformant ONC RPC client (record marking, AUTH_SYS): NULL, MNT /, GETATTR of the mounted handle, and a GETATTR split into three fragments. Verdicts are structural: well-formed reply / connection closed or reset / bytes that are not a record / nothing for 40 s (longer than the server's own read deadlines).",
 		assumptions: []string{"the configuration space is enumerated completely; the I/O inside one case is a single real execution", "StartWithPortmapper needs port 111; if it cannot be bound the path is reported as not explored"},
 		run: func(c *vCtx) {
 			var cases []c28Case
